@@ -9,6 +9,7 @@ CONSTANTS
  OpMans = {"m1", "m2"}
  OpKinds <- AllKinds
  UseMutex = TRUE
+ FreshPH = TRUE
 SPECIFICATION Spec
 INVARIANTS CacheCoherent
 CHECK_DEADLOCK FALSE
